@@ -13,11 +13,14 @@ def opFen (args : List String) : String :=
   | [h] =>
     match parseFen K (unhexBytes h) with
     | .ok p =>
+      -- the property speaks about the canonical FEN texts of legal positions (round trip) and, for every other string, only
+      -- about totality: outside that domain (`s.dom=0`) only the no-panic assertion of the Go side is judged
       let legal := Fide.wellFormed (absPos p) && WF p && p.ply / 2 + 1 ≤ 128
+      let canon := toFen p == some (unhexBytes h)
       s!"m.res=ok m.fen={fenField (fenText p)} m.dump={dumpPos p} m.wf={boolStr (WF p)}" ++
-      (if legal then s!" s.fen={fenField (Fide.toFen (absPos p))}" else "")
-    | .error => "m.res=error"
-    | .panic => "m.res=panic"
+      (if legal && canon then s!" s.fen={fenField (Fide.toFen (absPos p))} s.dom=1" else " s.dom=0")
+    | .error => "m.res=error s.dom=0"
+    | .panic => "m.res=panic s.dom=0"
   | _ => "bad-op"
 
 def specAttby (p : Pos) : List BB :=
